@@ -1,6 +1,7 @@
 import G3D.Proofs.Typed
 import G3D.Proofs.ExactAll
 import G3D.Proofs.AlgebraEuler
+import G3D.Proofs.EulerAllProof
 /-! # C04 (continued) — documented result types, for ALL operands of all 49 type pairs -/
 namespace G3D.Props.C04
 open G3D G3D.Dispatch G3D.Extracted
@@ -38,5 +39,11 @@ theorem polyhedron_polyhedron_raises_only_euler (A B : Polyhedron) (hA : A.Exact
   · rw [ho] at h; cases h
   · rw [ho] at h; cases h
   · rw [he] at h; cases h; exact ⟨rfl, p, hp, h2, hne⟩
+
+
+/-- **`intersection` never raises**: all 49 ordered type pairs of admissible operands (well-formed flats, Valid polygons,
+    polyhedra meeting `ExactHyp`) — no "Bug detected", no constructor error — and the result is None or admissible again -/
+theorem never_raises (a b : Obj) (ha : OpOK a) (hb : OpOK b) : ∃ o, inter a b = .ok o ∧ ResOK' o :=
+  never_raises_all_of_euler eulerAll a b ha hb
 
 end G3D.Props.C04
